@@ -274,7 +274,9 @@ func ssCase(t *rapid.T, gr grp, maxN int) {
 	for a := 0; a < nalt; a++ {
 		i := rapid.IntRange(0, n-1).Draw(t, "altIdx")
 		id2, v2 := new(big.Int).Set(ids[i]), new(big.Int).Set(vals[i])
-		kind := rapid.SampledFrom([]string{"value+1", "value-bit", "value-random", "value=0", "value=other-share", "id+1", "id-bit", "id-random", "id=other-share", "id=0", "id=0,value=secret", "swap-id-value", "both"}).Draw(t, "altKind")
+		kind := rapid.SampledFrom([]string{"value+1", "value-bit", "value-random", "value=0", "value=other-share", "id+1", "id-bit", "id-random", "id=other-share", "id=0", "id=0,value=secret", "swap-id-value", "both",
+			// algebraically 'near' alterations: images of the share under the symmetries of the group / field
+			"value-negated", "value-negated", "id-negated", "both-negated", "value-doubled", "value-halved", "value-inverted", "value+f(-id)", "value=f(id+1)"}).Draw(t, "altKind")
 		switch kind {
 		case "value+1":
 			v2.Add(v2, big.NewInt(1)).Mod(v2, r)
@@ -306,6 +308,25 @@ func ssCase(t *rapid.T, gr grp, maxN int) {
 			// f(0) = secret, but identifier 0 is documented as never valid
 			id2.SetInt64(0)
 			v2.Set(secret)
+		case "value-negated":
+			v2.Neg(v2).Mod(v2, r) // [−v]G = −[v]G: same x coordinate on a Weierstrass curve
+		case "id-negated":
+			id2.Neg(id2).Mod(id2, r)
+		case "both-negated":
+			id2.Neg(id2).Mod(id2, r)
+			v2.Neg(v2).Mod(v2, r)
+		case "value-doubled":
+			v2.Lsh(v2, 1).Mod(v2, r)
+		case "value-halved":
+			v2.Mul(v2, new(big.Int).ModInverse(big.NewInt(2), r)).Mod(v2, r)
+		case "value-inverted":
+			if v2.Sign() != 0 {
+				v2.ModInverse(v2, r)
+			}
+		case "value+f(-id)":
+			v2.Add(v2, refEval(r, xs, ys, new(big.Int).Mod(new(big.Int).Neg(id2), r))).Mod(v2, r)
+		case "value=f(id+1)":
+			v2.Set(refEval(r, xs, ys, new(big.Int).Mod(new(big.Int).Add(id2, big.NewInt(1)), r)))
 		case "swap-id-value":
 			id2, v2 = v2, id2
 		case "both":
